@@ -798,7 +798,12 @@ def fam_negshift(rng, u, avoid):
 FAM_FN = {"index": fam_index, "slice": fam_slice, "nilderef": fam_nilderef, "nilmap": fam_nilmap, "typeassert": fam_typeassert,
           "div": fam_div, "make": fam_make, "s2a": fam_s2a, "chan": fam_chan, "sweep": fam_sweep, "negshift": fam_negshift}
 
-PLACES = [("seq", 4), ("loop", 3), ("closure", 2), ("defer", 2), ("go", 3), ("loopdefer", 1)]
+# "h*" placements run the unit's closure through a shared harness function of the prelude (cheap to compile: one
+# closure per unit); the others spell the frame out inside the unit (op lexically inside a loop body / closure /
+# deferred function literal / go statement) and cost about three times as much code.
+PLACES = [("hseq", 10), ("hdefer", 5), ("hgo", 6), ("hgodefer", 2), ("hnest", 2),
+          ("seq", 1), ("loop", 1), ("closure", 1), ("defer", 1), ("go", 1), ("loopdefer", 1)]
+GO_PLACES = ("go", "hgo", "hgodefer")
 
 
 def make_unit(rng, avoid, fam=None):
@@ -806,11 +811,11 @@ def make_unit(rng, avoid, fam=None):
     u = Unit(fam)
     FAM_FN[fam](rng, u, avoid)
     u.place = rng.choices([p for p, _ in PLACES], [w for _, w in PLACES])[0]
-    if u.helper and u.place == "go":
-        u.place = "seq"
-    if u.nilsig and "sigsegv-twice" in avoid:
+    if u.helper and u.place in GO_PLACES:
+        u.place = "hseq"
+    if u.nilsig and "sigsegv-twice" in avoid and u.place not in GO_PLACES:
         # one signal-based fault per thread at most: every rep in its own fresh goroutine, started by a clean thread
-        u.place = "go"
+        u.place = "hgo"
     u.sig += "/" + u.place
     return u
 
@@ -822,6 +827,23 @@ def render_unit(u, uid):
     w = o.append
     w("func u%d() {" % uid)
     w("\tprintln(\"U\", %d)" % uid)
+    if u.place.startswith("h"):
+        K = len(u.reps)
+        for pi, (n, t) in enumerate(u.params):
+            w("\ttab%d := [%d]%s{%s}" % (pi, K, t, ", ".join(r[0][pi] for r in u.reps)))
+        w("\trun_%s(%d, func(rep int) int {" % (u.place[1:], K))
+        for pi, (n, t) in enumerate(u.params):
+            w("\t\t%s := tab%d[rep]" % (n, pi))
+            w("\t\t_ = %s" % n)
+        for st in u.setup:
+            w("\t\t" + st)
+        w("\t\tr := 0")
+        for st in u.body:
+            w("\t\t" + st)
+        w("\t\treturn r")
+        w("\t})")
+        w("}")
+        return "\n".join(o)
     ps = "".join(", %s %s" % (n, t) for n, t in u.params)
     w("\tinner := func(rep int%s) {" % ps)
     w("\t\tdefer func() { rp(recover()) }()")
@@ -955,6 +977,41 @@ def prelude():
     w("\t}")
     w("\treturn nil")
     w("}")
+    w("func one(rep int, f func(int) int) {")
+    w("\tdefer func() { rp(recover()) }()")
+    w("\tprintln(\"B\", rep)")
+    w("\tr := f(rep)")
+    w("\tprintln(\"A\", r)")
+    w("}")
+    w("func oneDefer(rep int, f func(int) int) {")
+    w("\tdefer func() { rp(recover()) }()")
+    w("\tdefer func() {")
+    w("\t\tprintln(\"B\", rep)")
+    w("\t\tr := f(rep)")
+    w("\t\tprintln(\"A\", r)")
+    w("\t}()")
+    w("\tprintln(\"D\", rep)")
+    w("}")
+    w("func nest(d int, rep int, f func(int) int) int {")
+    w("\tif d > 0 { return nest(d-1, rep, f) + 0 }")
+    w("\tg := func() int { return f(rep) }")
+    w("\treturn g()")
+    w("}")
+    w("func run_seq(n int, f func(int) int) { for rep := 0; rep < n; rep++ { one(rep, f) } }")
+    w("func run_defer(n int, f func(int) int) { for rep := 0; rep < n; rep++ { oneDefer(rep, f) } }")
+    w("func run_nest(n int, f func(int) int) {")
+    w("\tfor rep := 0; rep < n; rep++ { one(rep, func(r int) int { return nest(3, r, f) }) }")
+    w("}")
+    w("func inGo(g func()) {")
+    w("\tdone := make(chan int, 1)")
+    w("\tgo func() {")
+    w("\t\tdefer func() { done <- 1 }()")
+    w("\t\tg()")
+    w("\t}()")
+    w("\t<-done")
+    w("}")
+    w("func run_go(n int, f func(int) int) { for rep := 0; rep < n; rep++ { inGo(func() { one(rep, f) }) } }")
+    w("func run_godefer(n int, f func(int) int) { for rep := 0; rep < n; rep++ { inGo(func() { oneDefer(rep, f) }) } }")
     w("func rp(r interface{}) {")
     w("\tif r == nil { println(\"P -\"); return }")
     w("\tswitch v := r.(type) {")
